@@ -682,6 +682,14 @@ Proof.
            end; try discriminate; injection H as <-; reflexivity.
 Qed.
 
+(* the step lemma on reachable states (the pending fan-outs of a reachable state carry "off" only) *)
+Lemma step_emits_reach s o g :
+  reach s -> In g (s_net (fst (step s o))) -> In g (s_net s) \/ fresh_ok (fst (step s o)) g.
+Proof. intros R. destruct (net_prov s R) as [Z _]. destruct (step_adds s o Z) as [A _]. exact (A g). Qed.
+
+Lemma in_flight_reach s : reach s -> Forall sent_ok (s_net s).
+Proof. intros R. exact (proj2 (net_prov s R)). Qed.
+
 (* END TO END, all histories and interleavings: a content notification ({pres} msg / del / read / recv / upd, {info}
    read / recv / kp) which a session receives on 'me' was addressed by the p2p/group topic behind its `src`,
    in a reachable state, to this user as a NON-DELETED subscriber whose mode has P - and R for {info}.
